@@ -251,8 +251,9 @@ def run(check, ctx):
                      expected="%s raises only %s for arbitrary input bytes" % (q, "/".join(allowed)))
     check.floor("X", 25)
     strictness(check, repo)
-    from .c13_extra import der_writer_rows
+    from .c13_extra import der_writer_rows, pem_roundtrip_rows
     der_writer_rows(check, repo)
+    pem_roundtrip_rows(check, repo)
     regex_lint(check, repo)
     kdf_gate(check, repo)
     check.assume("exception model: explicit raises along resolved calls inside the "
